@@ -15,7 +15,8 @@ def g_alphabet(dom, two_defs):
         al.append(A("g", "g", r))
         al.append(R("g", "g", r))
     al += [AM("g", "g", [gr[0], gr[1]]), AM("g", "g", [gr[0], gr[3]]), AM("g", "g", [gr[2], gr[2]]), RM("g", "g", [gr[0], gr[1]]),
-           RM("g", "g", [gr[0], gr[4]]), RF("g", "g", 0, ["alice"]), RF("g", "g", 1, ["admin"]), RF("g", "g", 0, ["", "alice"]),
+           RM("g", "g", [gr[0], gr[4]]), RM("g", "g", [gr[1], gr[1], gr[0]]), RM("g", "g", [gr[0], gr[1], gr[0]]),   # a stored rule named twice
+           AM("g", "g", [gr[3], gr[0], gr[3]]), RF("g", "g", 0, ["alice"]), RF("g", "g", 1, ["admin"]), RF("g", "g", 0, ["", "alice"]),
            "CL", "LD", "SR:10", "ar:bob:admin:%s" % d, "dr:bob:admin:%s" % d, "drs:alice:%s" % d, "du:alice", "dra:admin",
            "LF:%s:%s" % (enc_rule(["alice"]), enc_rule(["alice"])), A("g", "g", ["carl", "carl"] + (["d1"] if dom else [])),
            R("g", "g", ["carl", "carl"] + (["d1"] if dom else [])), R("g", "g", ["nobody", "nothing"] + (["d1"] if dom else [])),
